@@ -478,7 +478,8 @@ func inputText(f family, d int, sql string) string {
 	if len(sql) <= 1500 {
 		return sql
 	}
-	return fmt.Sprintf("family %s depth %d (%d bytes): %s … %s", f.Key, d, len(sql), sql[:200], sql[len(sql)-100:])
+	// longer than any input shown in full, so that the smallest failing depth is reported first
+	return fmt.Sprintf("family %s depth %d (%d bytes): %s … %s", f.Key, d, len(sql), sql[:1400], sql[len(sql)-100:])
 }
 
 // parseOutcome runs the family's entry point(s).
@@ -825,14 +826,14 @@ func limitCases(e *common.Enum) {
 					if n == docSize {
 						c.Sample(map[string]any{"bytes": n, "shape": shape, "entry": en.name, "outcome": class})
 					}
-					tag := "size:" + shape + ":" + en.name
+					tag := "size:" + shape
 					switch {
 					case n <= docSize && code == "E1006":
-						c.Fail("limit-too-early:"+tag, fmt.Sprintf("input of %d bytes (limit %d) rejected with the size-limit error: %v", n, docSize, common.Trim(err.Error(), 200)))
+						c.Fail("limit-too-early:"+tag, fmt.Sprintf("%s: input of %d bytes (limit %d) rejected with the size-limit error: %v", en.name, n, docSize, common.Trim(err.Error(), 200)))
 					case n > docSize && err == nil:
-						c.Fail("limit-not-enforced:"+tag, fmt.Sprintf("input of %d bytes (limit %d) accepted", n, docSize))
+						c.Fail("limit-not-enforced:"+tag, fmt.Sprintf("%s: input of %d bytes (limit %d) accepted", en.name, n, docSize))
 					case n > docSize && code != "E1006":
-						c.Fail("wrong-limit-code:"+tag, fmt.Sprintf("input of %d bytes (limit %d) rejected with %q instead of E1006: %v", n, docSize, code, common.Trim(err.Error(), 200)))
+						c.Fail("wrong-limit-code:"+tag, fmt.Sprintf("%s: input of %d bytes (limit %d) rejected with %q instead of E1006: %v", en.name, n, docSize, code, common.Trim(err.Error(), 200)))
 					}
 				})
 			}
@@ -867,14 +868,14 @@ func limitCases(e *common.Enum) {
 					if n == docTokens {
 						c.Sample(map[string]any{"tokens_without_eof": n, "shape": shape, "entry": en.name, "outcome": class})
 					}
-					tag := "tokens:" + shape + ":" + en.name
+					tag := "tokens:" + shape
 					switch {
 					case n < docTokens && code == "E1007":
-						c.Fail("limit-too-early:"+tag, fmt.Sprintf("input of %d tokens plus EOF (limit %d) rejected with the token-limit error: %v", n, docTokens, common.Trim(err.Error(), 200)))
+						c.Fail("limit-too-early:"+tag, fmt.Sprintf("%s: input of %d tokens plus EOF (limit %d) rejected with the token-limit error: %v", en.name, n, docTokens, common.Trim(err.Error(), 200)))
 					case n > docTokens && err == nil:
-						c.Fail("limit-not-enforced:"+tag, fmt.Sprintf("input of %d tokens (limit %d) accepted", n, docTokens))
+						c.Fail("limit-not-enforced:"+tag, fmt.Sprintf("%s: input of %d tokens (limit %d) accepted", en.name, n, docTokens))
 					case n > docTokens && code != "E1007":
-						c.Fail("wrong-limit-code:"+tag, fmt.Sprintf("input of %d tokens (limit %d) rejected with %q instead of E1007: %v", n, docTokens, code, common.Trim(err.Error(), 200)))
+						c.Fail("wrong-limit-code:"+tag, fmt.Sprintf("%s: input of %d tokens (limit %d) rejected with %q instead of E1007: %v", en.name, n, docTokens, code, common.Trim(err.Error(), 200)))
 					}
 				})
 			}
